@@ -10,7 +10,12 @@
 (***************************************************************************)
 EXTENDS BoolFn, Semirings
 
-W(sr, w, we, v, b) == Weight(sr, IF b THEN w[v + 1][2] ELSE w[v + 1][1], we)
+(* we[v+1] = exponent of variable v's weights (weights of different variables may live on different scales) *)
+W(sr, w, we, v, b) == Weight(sr, IF b THEN w[v + 1][2] ELSE w[v + 1][1], we[v + 1])
+WX(x, n) == [i \in 1 .. n |-> x]                      \* the same exponent for every variable
+RECURSIVE SumExpFrom(_, _, _)
+SumExpFrom(we, i, n) == IF i > n THEN 0 ELSE we[i] + SumExpFrom(we, i + 1, n)
+SumExp(we, n) == SumExpFrom(we, 1, n)
 
 RECURSIVE ProdFrom(_, _, _, _, _, _, _)
 ProdFrom(sr, p, w, we, a, v, nv) ==
